@@ -17,6 +17,7 @@ package scipipe
 //@ axiom RA.parent.valid: forall s string :: validPath(s) ==> validPath(replaceAll(s, "../", "__parent__"))
 
 //@ extern strings.ReplaceAll(s, old, new) (res)
+//@   deterministic by-contract pure library function
 //@   ensures def: res == replaceAll(s, old, new)
 
 //@ define validPath(p string) bool = fullMatch(p, "[0-9A-Za-z/._-]+")
@@ -26,12 +27,14 @@ package scipipe
 // ---------------------------------------------------------------------------
 
 //@ func prependParentDirPath(path) (res)
-//@   props C13
+//@   props C13 C15
+//@   deterministic structural
 //@   ensures abs: hasPrefix(path, "/") ==> res == path
 //@   ensures rel: !hasPrefix(path, "/") ==> res == "../" + path
 
 //@ func replaceParentDirsWithPlaceholder(pathSegment) (res)
 //@   props C01 C13
+//@   deterministic structural
 //@   ensures def: res == replaceAll(pathSegment, "../", "__parent__")
 
 //@ func replacePlaceholdersWithParentDirs(pathSegment) (res)
@@ -49,10 +52,12 @@ package scipipe
 
 //@ func (*FileIP).FifoPath(ip) (res)
 //@   props C13 C17
+//@   deterministic structural
 //@   ensures def: res == ip.path + ".fifo"
 
 //@ func (*FileIP).TempPath(ip) (res)
 //@   props C01 C13
+//@   deterministic structural
 //@   ensures def: res == tempPathOf(ip.path)
 //@   ensures confined[C01]: !hasPrefix(res, "/") && !contains(res, "../")
 //@   ensures identity[C13]: !hasPrefix(ip.path, "/") && !contains(ip.path, "../") ==> res == ip.path
@@ -123,6 +128,7 @@ package scipipe
 //@ extern (time.Time).Sub(t, u) (res)
 //@   ensures def: res == t - u
 //@ extern fmt.Sprintf(format, a) (res)
+//@   deterministic by-contract pure library function
 //@ extern (*log.Logger).Println(l, v)
 //@ extern (*log.Logger).Printf(l, format, v)
 //@   deterministic by-contract logging does not influence results
@@ -507,6 +513,7 @@ package scipipe
 //@   ensures def: res == hexOf(src)
 //@ extern strings.Join(elems, sep) (res)
 //@   deterministic by-contract pure library function
+//@   ensures def: res == joinStr(elems, sep)
 //@ extern path/filepath.Base(path) (res)
 //@   deterministic by-contract pure library function
 //@   ensures def: res == baseOf(path)
@@ -634,3 +641,55 @@ package scipipe
 //@   loop 0 invariant start: $i == 0 ==> replacement == path
 //@   loop 0 step one-at-a-time: $i == prev($i) + 1
 //@   loop 0 step left-to-right: docMod(modifiers[prev($i)]) && !contains(prev(replacement), "\n") ==> replacement == modstep(prev(replacement), modifiers[prev($i)])
+
+// ---------------------------------------------------------------------------
+// C15 / C13 / C17 / C18 / C09: placeholder expansion (task.go formatCommand)
+// ---------------------------------------------------------------------------
+
+//@ ghost func splitOf(s string, sep string) seq[string]
+//@ ghost func joinStr(elems seq[string], sep string) string
+//@ ghost func reFindAll(pat string, s string) seq[seq[string]]
+
+//@ extern regexp.Compile(expr) (res, err)
+//@   deterministic by-contract pure function of the pattern
+//@   ensures lit: err == nil ==> res != nil && regexLit(res) == expr
+//@ extern (*regexp.Regexp).FindAllStringSubmatch(re, s, n) (res)
+//@   deterministic by-contract pure library function
+//@   ensures def: n < 0 ==> res == reFindAll(regexLit(re), s)
+//@ extern strings.Split(s, sep) (res)
+//@   deterministic by-contract pure library function
+//@   ensures def: res == splitOf(s, sep)
+//@   ensures nonempty: len(res) >= 1
+
+//@ func getShellCommandPlaceHolderRegex() (res)
+//@   props C15
+//@   deterministic structural
+//@   ensures pattern: res != nil && regexLit(res) == "{(o|os|i|is|p|t):([^{}]+)}"
+
+//@ func strInSlice(str, slice) (res)
+//@   props C15
+//@   deterministic structural
+//@   ensures def: res <==> hasMod(slice, str)
+//@   loop 0 invariant range: 0 <= $i && $i <= len(slice)
+//@   loop 0 invariant none-yet: forall j int :: 0 <= j && j < $i ==> slice[j] != str
+
+//@ define hasMod(ms seq[string], s string) bool = exists j int :: 0 <= j && j < len(ms) && ms[j] == s
+//@ define prependOf(x string) string = ite(hasPrefix(x, "/"), x, "../" + x)
+//@ define joinedPaths(P seq[string], ips seq[*FileIP], mods seq[string]) bool = len(P) == len(ips) && (forall j int :: 0 <= j && j < len(ips) ==> P[j] == prependOf(applyMods(ips[j].path, mods)))
+
+//@ func (*Task).formatCommand(t, cmd, portInfos, inIPs, subStreamIPs, outIPs, params, tags, prepend) (res)
+//@   props C15
+//@   deterministic structural
+//@   atcall strings.Replace all-occurrences[C15]: $arg3 < 0 && $arg1 == placeHolder.match && $arg2 == replacement
+//@   atcall strings.Replace known-type[C09,C15]: portInfo.portType == "o" || portInfo.portType == "os" || portInfo.portType == "i" || portInfo.portType == "p" || portInfo.portType == "t"
+//@   atcall strings.Replace case-o[C01,C13,C15]: portInfo.portType == "o" ==> outIPs[portName] != nil && replacement == replaceAll(applyMods(tempPathOf(outIPs[portName].path), placeHolder.modifiers), "../", "__parent__")
+//@   atcall strings.Replace case-os[C15,C17]: portInfo.portType == "os" ==> outIPs[portName] != nil && replacement == ite(hasMod(placeHolder.modifiers, "basename"), applyMods(outIPs[portName].path + ".fifo", placeHolder.modifiers), prependOf(applyMods(outIPs[portName].path + ".fifo", placeHolder.modifiers)))
+//@   atcall strings.Replace case-i[C13,C15,C17]: portInfo.portType == "i" && !(portInfo.join && portInfo.joinSep != "") ==> inIPs[portName] != nil && inIPs[portName].path != "" && replacement == ite(hasMod(placeHolder.modifiers, "basename"), applyMods(ite(inIPs[portName].doStream, inIPs[portName].path + ".fifo", inIPs[portName].path), placeHolder.modifiers), prependOf(applyMods(ite(inIPs[portName].doStream, inIPs[portName].path + ".fifo", inIPs[portName].path), placeHolder.modifiers)))
+//@   atcall strings.Replace case-i-join[C15,C18]: portInfo.portType == "i" && portInfo.join && portInfo.joinSep != "" ==> inIPs[portName] != nil && exists P seq[string] :: joinedPaths(P, subStreamIPs[portName], placeHolder.modifiers) && replacement == joinStr(P, portInfo.joinSep)
+//@   atcall strings.Replace case-p[C09,C15]: portInfo.portType == "p" ==> params[portName] != "" && replacement == applyMods(params[portName], placeHolder.modifiers)
+//@   atcall strings.Replace case-t[C09,C15]: portInfo.portType == "t" ==> tags[portName] != "" && replacement == applyMods(tags[portName], placeHolder.modifiers)
+//@   loop 0 invariant range: 0 <= $i && $i <= len(placeHolderMatches) && len(placeHolderInfos) == $i
+//@   loop 0 invariant parse: forall j int :: 0 <= j && j < $i ==> placeHolderInfos[j] != nil && placeHolderInfos[j].match == placeHolderMatches[j][0] && placeHolderInfos[j].portName == splitOf(placeHolderMatches[j][2], "|")[0] && len(placeHolderInfos[j].modifiers) == len(splitOf(placeHolderMatches[j][2], "|")) - 1 && (forall k int :: 0 <= k && k < len(placeHolderInfos[j].modifiers) ==> placeHolderInfos[j].modifiers[k] == splitOf(placeHolderMatches[j][2], "|")[k + 1])
+//@   loop 1 invariant parsed: forall j int :: 0 <= j && j < len(placeHolderInfos) ==> placeHolderInfos[j] != nil && placeHolderInfos[j].match == placeHolderMatches[j][0] && placeHolderInfos[j].portName == splitOf(placeHolderMatches[j][2], "|")[0] && (forall k int :: 0 <= k && k < len(placeHolderInfos[j].modifiers) ==> placeHolderInfos[j].modifiers[k] == splitOf(placeHolderMatches[j][2], "|")[k + 1])
+//@   loop 2 invariant range: 0 <= $i && $i <= len(subStreamIPs[portName]) && len(paths) == $i
+//@   loop 2 invariant joined: forall j int :: 0 <= j && j < $i ==> paths[j] == prependOf(applyMods(subStreamIPs[portName][j].path, placeHolder.modifiers))
